@@ -26,7 +26,8 @@ META = {
     "level_note": "Narrowed: compared fields are index, reception time, timestamp, ecu/apid/ctid, message counter and payload "
                   "text (hash); filters are literal ecu/apid/ctid criteria (positive OR / negative veto); a query is required "
                   "to be complete only when created on a completely parsed file (a query created during parsing ends when a "
-                  "loop iteration sees no new message) and its window is changed only while the session is paused; searches "
+                  "loop iteration sees no new message); on the big uniform log (70 000 messages, windows larger than 64 Ki) "
+                  "only frame summaries are checked: the frames tile the window exactly, in order, each position once and its window is changed only while the session is paused; searches "
                   "and lookups are made on streams after quiescence, page sizes >= 1, strictly increasing message times "
                   "(time = reception time = lifecycle start + timestamp); 'eventually' = all messages of the file reported "
                   "(FileInfo) and three consecutive sentinel round trips (each forces a full server loop iteration) without "
@@ -143,7 +144,7 @@ def check(ctx):
     trace_srv = ctx.path("trace-srv.ndjson")
     nrand = 75 if quick else 600
     si = drive(binp, ["server", "--adlt", adlt, "--work", ctx.work, "--scenarios", sscn, "--random", str(nrand), "--seed", str(ctx.seed),
-                      "--out", trace_srv, "--conns", "10", "--logs", "4" if quick else "8", "--throttles", "32:2,8:4,2:3", "--max-n", "1500" if quick else "6000"])
+                      "--out", trace_srv, "--conns", "10", "--logs", "4" if quick else "8", "--throttles", "32:2,8:4,2:3", "--big", "70000", "--max-n", "1500" if quick else "6000"])
     sw = c.kf_switches("C16", KFS)
     vs = c.validate_trace(ctx, "srv", "StreamTrace.tla", trace_srv, sw, timeout=3000, xmx="8g")
     ctx.add_tlc("trace-validation-server", vs.res)
@@ -176,6 +177,12 @@ def check(ctx):
                     paths["data_frames"] += 1
                 else:
                     paths["query_end_marker"] += 1
+            elif e["ev"] == "bin_sum":
+                hit = True
+                multi[e["id"]] += 1
+                paths["big_window_frames"] += 1
+                if e["n"] > 65536:
+                    paths["frame_over_64Ki_msgs"] += 1
             elif e["ev"] == "ok_search":
                 paths["search_page"] += 1
                 paths["search_page_size_%d" % min(e["max"], 6)] += 1
@@ -213,7 +220,7 @@ def check(ctx):
     ctx.extra["path_hits"] = dict(sorted(paths.items()))
     ctx.extra["kf_switches"] = sw
     needed = ["data_frames", "query_end_marker", "ok_change", "quiescent", "search_continued", "ok_bsearch", "created_during_parsing",
-              "window_empty", "window_in_several_frames", "lib_stream", "lib_query", "lib_grow"] + ["search_page_size_%d" % k for k in range(1, 6)]
+              "window_empty", "window_in_several_frames", "big_window_frames", "lib_stream", "lib_query", "lib_grow"] + ["search_page_size_%d" % k for k in range(1, 6)]
     missing = [n for n in needed if paths[n] == 0]
     for k in list(srv_cases)[:1] + list(srv_cases)[-2:]:
         ctx.add_sample({"layer": "server", "case": k, "trace": [({kk: vv for kk, vv in e.items() if kk != "msgs"}) for e in srv_cases[k][:12]]})
